@@ -425,6 +425,15 @@ class Sym:
                     nf = _nt_fields(nts, a)
                     if nf is not None and e.attr in nf[0] and len(alts(v)) == 1:
                         return nf[1][nf[0].index(e.attr)]
+            # self.TABLE where TABLE is a class-level literal (tuple / dict of constants and names) that no method rebinds
+            cls = getattr(self.cx, "cls", None)
+            if v == SELF and cls is not None and e.attr in getattr(cls, "consts", {}) and e.attr.isupper() or \
+                    (v == SELF and cls is not None and e.attr in getattr(cls, "consts", {}) and e.attr.lstrip("_").isupper()):
+                cv = cls.consts[e.attr]
+                if isinstance(cv, (ast.Tuple, ast.List, ast.Dict)) and all(
+                        isinstance(n, (ast.Tuple, ast.List, ast.Dict, ast.Constant, ast.Name, ast.Load, ast.Attribute)) for n in ast.walk(cv)) \
+                        and not self._class_rebinds(cls, e.attr):
+                    return self._of(cv, at, d, {})
             return ("attr", v, e.attr)
         if isinstance(e, ast.Subscript):
             v, i = rec(e.value), rec(e.slice)
@@ -700,6 +709,14 @@ class Sym:
         if fn is None or fn.args.vararg is not None or fn.args.posonlyargs:
             return None
         return tuple(a.arg for a in fn.args.args)[drop:]
+
+    @staticmethod
+    def _class_rebinds(cls, attr: str) -> bool:
+        for fn in cls.methods.values():
+            for n in ast.walk(fn):
+                if isinstance(n, ast.Attribute) and n.attr == attr and isinstance(n.ctx, (ast.Store, ast.Del)):
+                    return True
+        return False
 
     def _known_not(self, name: str, at: int) -> set:
         """terms (None, or a global sentinel name) that some test dominating `at` established `name` is not -- provided the
